@@ -24,6 +24,10 @@
 #include <unordered_set>
 #include <vector>
 
+extern "C" int __lsan_do_recoverable_leak_check() __attribute__((weak));
+extern "C" void __sanitizer_print_memory_profile(unsigned long, unsigned long)
+    __attribute__((weak));
+
 namespace vf {
 
 using json = nlohmann::json;
@@ -424,6 +428,14 @@ inline int worker_main(
             fwrite(&h, 8, 1, f);
         }
         fclose(f);
+    }
+    if (getenv("VERIF_LEAK_CHECK") && __lsan_do_recoverable_leak_check) {
+        // harness maintenance: workers leave through _exit, so the leak
+        // detector never runs by itself
+        __lsan_do_recoverable_leak_check();
+        if (__sanitizer_print_memory_profile) {
+            __sanitizer_print_memory_profile(95, 12);
+        }
     }
     return st.failures.empty() && ok ? 0 : 1;
 }
